@@ -21,11 +21,13 @@ Open Scope Z_scope.
 Definition two256 : Z := 2 ^ 256.
 Definition two160 : Z := 2 ^ 160.
 
-(* the n low-order bytes of z, most significant first *)
+(* the n low-order bytes of z, most significant first.
+   Z.land z 255 = z mod 256 and Z.shiftr z 8 = z / 256 for every z (P_Abi.be_bytes_S); the bit
+   operations are used because vm_compute evaluates them in constant time per byte *)
 Fixpoint be_bytes (n : nat) (z : Z) : list Z :=
   match n with
   | O => []
-  | S k => be_bytes k (z / 256) ++ [z mod 256]
+  | S k => be_bytes k (Z.shiftr z 8) ++ [Z.land z 255]
   end.
 
 (* big-endian value of a byte string *)
